@@ -194,6 +194,10 @@ func genResps(r *rng, total int) []resp {
 		if mx >= left && r.chance(50) {
 			ec = 1 // data together with io.EOF
 		}
+		if r.chance(4) {
+			// a reader may answer (0, nil): "nothing happened" — ReadFrom has to ask again
+			rs = append(rs, resp{0, 0})
+		}
 		rs = append(rs, resp{mx, ec})
 		left -= mx
 		if left <= 0 && r.chance(60) {
